@@ -31,6 +31,7 @@ type sess struct {
 	st    map[string]interface{}
 	t0    int64 // wall clock (Unix seconds) at the start of the current case
 	deep  bool  // the current operation carries deep=1 (see srcBaseFor)
+	urlTail string // "", "/" or "/." : how the server URL of the current operation is spelled (urlspell=)
 }
 
 func (s *sess) obs(format string, a ...interface{}) {
@@ -94,10 +95,15 @@ func main() {
 			tk[i] = s.resolveTime(t)
 		}
 		line = strings.Join(tk, " ")
-		s.deep = false
+		s.deep, s.urlTail = false, ""
 		for _, t := range tk {
-			if t == "deep=1" {
+			switch t {
+			case "deep=1":
 				s.deep = true
+			case "urlspell=1":
+				s.urlTail = "/"
+			case "urlspell=2":
+				s.urlTail = "/."
 			}
 		}
 		h := handlers[tk[0]]
